@@ -438,6 +438,32 @@ theorem random_is_visible : ∀ (k : Bytes) (v : Val) (now : Int) (db : DB), db.
     refine ⟨e, rfl, ?_⟩
     simpa [hg, Spec.ok, Except.map] using this
 
+/-- … and `Random` reports "no key" only when no key is visible (the judge of the correspondence
+demands exactly this of the real code: `Spec.check` on `.keyRandom none`). -/
+theorem random_notfound_only_when_empty : ∀ (o : Option Bytes) (now : Int) (db : DB), db.Inv →
+    (Model.dbRun (.keyRandom o) now db).out = .error .notFound → Spec.abs now db = [] := by
+  intro o now db h hout
+  have hw := DB.Inv.wf h
+  have hlen := length_abs hw now
+  unfold liveRows at hlen
+  change (Model.keyRandom db o now).out = _ at hout
+  unfold Model.keyRandom at hout
+  cases o with
+  | none =>
+    cases hl : db.keys.filter (fun r => r.live now) with
+    | nil => rw [hl] at hlen; exact List.eq_nil_of_length_eq_zero (by simpa using hlen)
+    | cons a t => simp [hl, Res.err] at hout
+  | some k =>
+    dsimp only at hout
+    split at hout <;> simp [Res.err, Res.ok] at hout
+
+/-- the judge's rule for a `Random` that reported "no key" -/
+theorem random_check_rule : ∀ (inTx : Bool) (now : Int) (pre post : DB) (res : Out),
+    Spec.check inTx (.keyRandom none) now pre post res
+      = some (Spec.outEq res (.error .notFound) && (Spec.abs now pre).isEmpty
+          && decide (Spec.abs now post = Spec.abs now pre)) := by
+  intros; rfl
+
 /-- "Deleting a key …": afterwards exactly the named keys are gone, every other key is as it
 was. `foreign_keys` on or off. -/
 theorem delete_removes : ∀ (ks : List Bytes) (now : Int) (db : DB), db.Inv → ∀ k,
